@@ -51,6 +51,31 @@ pub fn exec(f: &[&str]) -> Option<String> {
             let r = sel.select(&doc, &mut data, &mut offs);
             show_sel(&pre, &data, &offs, r)
         }
+        // one Selector applied to several documents in turn, in a REUSED buffer (same address, and the same
+        // length when the encodings are equally long): every answer must be the one a fresh Selector gives
+        ["selreuse", m, path, docs @ ..] => {
+            let pathb = unhex(path)?;
+            mode_of(m)?;
+            let sel = match parse_json_path(&pathb) { Ok(j) => Selector::new(j, mode_of(m)?), Err(_) => return Some("bad-path".into()) };
+            let mut buf: Vec<u8> = Vec::with_capacity(docs.iter().map(|d| d.len()).max().unwrap_or(0));
+            for round in 0..2 {
+                for d in docs.iter() {
+                    let doc = unhex(d)?;
+                    buf.clear(); buf.extend_from_slice(&doc);
+                    let (mut data, mut offs) = (vec![], vec![]);
+                    let r = sel.select(&buf, &mut data, &mut offs);
+                    let got = show_sel(&[], &data, &offs, r);
+                    let e1 = show_bool(sel.exists(&buf));
+                    let fresh = Selector::new(parse_json_path(&pathb).ok()?, mode_of(m)?);
+                    let (mut data2, mut offs2) = (vec![], vec![]);
+                    let r2 = fresh.select(&doc, &mut data2, &mut offs2);
+                    let want = show_sel(&[], &data2, &offs2, r2);
+                    let e2 = show_bool(Selector::new(parse_json_path(&pathb).ok()?, mode_of(m)?).exists(&doc));
+                    if got != want || e1 != e2 { return Some(format!("MISMATCH round {} doc {}: reused selector {} / {} fresh {} / {}", round, d, got, e1, want, e2)); }
+                }
+            }
+            "ok".into()
+        }
         ["pexists", d, path] => {
             let pathb = unhex(path)?;
             let jp = match parse_json_path(&pathb) { Ok(j) => j, Err(_) => return Some("bad-path".into()) };
